@@ -9,7 +9,7 @@ from mirsym.values import *
 from mirsym.harness import *
 from mirsym.report import Violation
 from props.connlib import *
-from props.c02 import collect_simple
+from props.c02 import collect_simple, validate_samples
 
 LEVEL = 'model_checking'
 
@@ -112,6 +112,9 @@ def run(L, rep, tier, seed):
         pred['urls'] = [u.decode('latin1') if u is not None else None for u in urls]
         if cv.blocked is None:
             pred['codes'] = [r.get('status') for r in (cv.responses() or [])]
+            m0 = ctx.model()
+            if m0 is not None:
+                ctx.event('sample', sc(m0))
         delivered_victim = b'/victim' in urls
         delivered_smuggled = b'/smuggled' in urls
         first_ok = (pos == 0) or (urls[:1] == [b'/first'])
@@ -132,3 +135,4 @@ def run(L, rep, tier, seed):
     def known(label, sc):
         return KNOWN.get(label.split('/')[0]) if '/' not in label else None
     collect_simple(S, rep, 'C16', 'reject', known)
+    validate_samples(S, rep, 'reject')
